@@ -33,15 +33,46 @@ def build_world(edges, items_spec):
 BASES = [None, None, None, 2, 10, 1.5, 2.0, 10.0, math.e, 2.5, 10.5, 3, 16, 2.9999, 1.0001, 1000]
 
 
-def impl_ic(edges, items_spec, base, module, pseudo):
+class ViewsDisagree(Exception):
+    pass
+
+
+def impl_ic(edges, items_spec, base, module, pseudo, lazy_from=None):
     from hpotk.model import TermId
     from hpotk.algorithm.similarity import calculate_ic_for_annotated_items
     onto, items = build_world(edges, items_spec)
+    if lazy_from is not None:
+        # one more item whose annotations are produced LAZILY from the very graph the computation walks (a generator over a traversal)
+        from hpotk.annotations import SimpleHpoDiseases, SimpleHpoDiseaseAnnotation
+        g = onto.graph
+
+        class LazyItem:
+            identifier = TermId.from_curie('OMIM:999999')
+            name = 'lazy'
+
+            @property
+            def annotations(self):
+                return (SimpleHpoDiseaseAnnotation(t, 1, 1, (), ()) for t in g.get_descendants(TermId.from_curie(lazy_from), True))
+
+            def present_annotations(self):
+                return self.annotations
+
+            def absent_annotations(self):
+                return iter(())
+        items = SimpleHpoDiseases(list(items) + [LazyItem()], 'v2')
     with warnings.catch_warnings():
         warnings.simplefilter('ignore')
         c = calculate_ic_for_annotated_items(items, onto, base=base, module_root=None if module is None else TermId.from_curie(module),
                                              use_pseudocount=pseudo)
-    return {k.value: float(v) for k, v in c.items()}
+    out = {k.value: float(v) for k, v in c.items()}
+    # every way of reading the result gives the same numbers
+    absent = TermId.from_curie('ZZ:404')
+    for k in c:
+        if not (c[k] == c.get(k) == c.get(k, -1.0) == out[k.value]) or k not in c:
+            raise ViewsDisagree(f'ic[{k.value}] = {c[k]!r}, get = {c.get(k)!r}, get(default) = {c.get(k, -1.0)!r}, in = {k in c}')
+    if len(c) != len(out) or c.get(absent) is not None or c.get(absent, 7.0) != 7.0 or absent in c:
+        raise ViewsDisagree(f'len {len(c)} vs {len(out)} items; get(absent) = {c.get(absent)!r}; absent in result = {absent in c}')
+    return out
 
 
 def close(a, b):
@@ -91,6 +122,22 @@ def evaluate(ctx, cases, stream, offset=0):
                     if set(ic2) != set(ic) or any(not close(ic2[k], ic[k]) for k in ic):
                         problem = {'what': f'metamorphic-{name}', 'impl': ic2, 'base_result': ic}
                         break
+                if not problem and idx % 3 == 0:
+                    # an item whose annotations come lazily out of a traversal of the same graph == the same item given as a list
+                    chi = {}
+                    for a, b in c['edges']:
+                        chi.setdefault(b, set()).add(a)
+                    x = gl.nodes_of(c['edges'])[idx % len(gl.nodes_of(c['edges']))]
+                    seen, todo = {x}, [x]
+                    while todo:
+                        for y in chi.get(todo.pop(), ()):
+                            if y not in seen:
+                                seen.add(y)
+                                todo.append(y)
+                    eager = impl_ic(c['edges'], c['items'] + [[(d, True) for d in sorted(seen)]], c['base'], c['module'], c['pseudo'])
+                    lazy = impl_ic(c['edges'], c['items'], c['base'], c['module'], c['pseudo'], lazy_from=x)
+                    if set(eager) != set(lazy) or any(not close(eager[k], lazy[k]) for k in eager):
+                        problem = {'what': 'lazy-annotations-from-the-same-graph', 'descendants_of': x, 'impl_lazy': lazy, 'impl_eager': eager}
         except Exception as e:  # noqa
             problem = {'what': 'raises', 'impl': f'{type(e).__name__}: {e}'}
         if problem:
